@@ -39,6 +39,10 @@ func main() {
 	if prop == "replay" {
 		os.Exit(replay(os.Args[2]))
 	}
+	if prop == "gentree" {
+		// vcheck gentree <profile>:<seed>:<dir>  (debugging aid: writes one corpus tree)
+		os.Exit(genTree(os.Args[2]))
+	}
 	if prop == "libdriver" {
 		os.Exit(libDriver(os.Args[2]))
 	}
